@@ -224,20 +224,6 @@ def statusStr : Option WStatus → String
   | some ⟨false, false⟩ => "down"
   | _ => "mixed"
 
-/-- the property read directly off the history (independent of the model's mechanism): the ids
-that must be reported down at the end — workloads recorded on a node at the moment its
-heartbeat disappeared under an active watcher, or found lapsed (non-test node) when the watcher
-started, and not reported by their agent since -/
-def obligations (nodes : List NodeRec) : List Evt → St → List Nat → List Nat
-  | [], _, ob => ob
-  | e :: rest, s, ob =>
-    let ob' := match e with
-      | .lapse n => if s.active && s.hb.contains n then ob ++ ((onNode s n).map (·.id)) else ob
-      | .startWatcher => ob ++ (nodes.filter fun nd => !nd.test && !s.hb.contains nd.name).flatMap fun nd => (onNode s nd.name).map (·.id)
-      | .report i => ob.filter (· != i)
-      | _ => ob
-    obligations nodes rest (step s e) ob'
-
 def handle (j : Json) : Json :=
   let id := jget j "id"
   let nodes : List NodeRec := (jarr (jget j "nodes")).map fun n => ⟨jstr (jget n "name"), jbool (jget n "test")⟩
@@ -250,7 +236,7 @@ def handle (j : Json) : Json :=
   let ids := fin.wls.map (·.id)
   let modelSt := ids.map fun i => (toString i, statusStr (getStatus fin i))
   let agree := ids.all fun i => jstr (jget implSt (toString i)) == statusStr (getStatus fin i)
-  let ob := (obligations nodes evs s0 []).eraseDups
+  let ob := (obligations evs s0 []).eraseDups
   let viol := (ob.filter fun i => jstr (jget implSt (toString i)) != "down").map fun i => s!"C28:workload-still-up:{i}"
   let nlapse := (evs.filter fun e => match e with | .lapse _ => true | _ => false).length
   let startIdx := evs.findIdx (· == .startWatcher)
